@@ -439,6 +439,8 @@ SCHEMES.update({
                              ok_malleations=(('ss0:v_negmod',), ('ss1:v_negmod',), ('ss0:v_negmod', 'ss1:v_negmod'))), pc=True, weight=6,
                   opts=lambda rng: dict(cls=rng.below(2), ord=rng.below(1 << 16))),
     'mpss': Spec('C05', 4, dict(a='g1', b0='g1', b1='g1', m0='bn', m1='bn'), o_mpss, pc=True, weight=6),
+    'mpsb': Spec('C05', 4, dict(a='g1', b0='g1', b1='g1', m00='bn', m01='bn', m10='bn'), o_mpss, pc=True, weight=5,
+                 opts=lambda rng: dict(k=rng.below(3), cls=rng.below(2))),
     'shpe': Spec('C06', 4, dict(ct='bn'), o_shpe, opts=lambda rng: dict(cls=rng.below(2), n=rng.choice([0, 0, 1, 2]), dup=rng.below(2)), weight=6),
     'mpcg1': Spec('C06', 5, dict(l1='bn', d1='g1'), o_match, pc=True, weight=5),
     'mpcpc': Spec('C06', 5, dict(d1='g1', e1='g2'), o_match, pc=True, weight=5),
